@@ -531,9 +531,11 @@ def m_class(v):
     if k == "E":
         out.add("empty_object")
     elif k == "d" and (v[1] >> 52) & 0x7FF == 0x7FF:
-        out.add("nan" if v[1] & ((1 << 52) - 1) else "inf")
+        if v[1] & ((1 << 52) - 1):
+            out.add("nan")          # infinities are ordinary values since the repair D88
     elif k == "e" and (v[1] >> 10) & 31 == 31:
-        out.add("nan" if v[1] & 1023 else "inf")
+        if v[1] & 1023:
+            out.add("nan")
     elif k in "IU" and abs(v[1]) > 2 ** 53:
         out.add("bigint")
     elif k == "s":
@@ -551,7 +553,7 @@ def m_triple_excluded(vals):
     """a triple of values on which a relational law may fail for a documented reason (reported to the maintainers of this suite,
     see Props/C09.lean): X1 integers beyond ±2^53 next to doubles, X2 json() (empty_object: kind index 4 sits between uint64 and
     float64, and json() == {} whose kind index is 13), X3 short (kind 7) and long (kind 15) strings next to kinds 12..14,
-    X4 NaN, X5 infinities (inf - inf is NaN)"""
+    X4 NaN (X5, infinities, is gone: D88 was repaired)"""
     cl = set()
     for v in vals:
         cl |= m_class(v)
